@@ -132,6 +132,12 @@ static void rp_round(RegP *p, hsnk *sk, halloc *ha)
 #undef mf
 }
 
+static unsigned char g_xfer[64]; static size_t g_xfer_size;
+static ByteBuffer lend_xfer(Source *s)
+{
+    (void)s; ByteBuffer b; byte_buffer_use(&b, g_xfer, g_xfer_size); return b;
+}
+
 void run_rp(const char *op)
 {
     if (!strcmp(op, "rp.serve") || !strcmp(op, "rp.corrupt")) {
@@ -164,7 +170,10 @@ void run_rp(const char *op)
             }
             free(raw); stream = built; slen = n;
         }
-        hsrc ss; Source src; h_src_make(&ss, &src, aN(2) != 0, stream, slen, -1);
+        /* soct: 0 chunk-style source, 1 octet-style source, 2 / 3 chunk-style source that lends a transfer buffer of 5 / 64 octets
+           through the getbuffer extension (source-to-sink plumbing then hands the frame to the receive sink in chunks) */
+        hsrc ss; Source src; h_src_make(&ss, &src, aN(2) == 1, stream, slen, -1);
+        if (aN(2) >= 2) { g_xfer_size = aN(2) == 2 ? 5 : 64; src.ext.getbuffer = lend_xfer; }
         hsnk sk; Sink snk; h_snk_make(&sk, &snk, false, -1);
         halloc ha; BlockAllocator ba; ha_make(&ha, &ba, (size_t)bs, corrupt ? -1 : 4);
         g_be.arg = 6; g_be.pos = 0; g_be.mem16 = mem16;
